@@ -111,31 +111,41 @@ def cursorToLine (s : Screen) (line : Option Nat) : Screen :=
 def setTabStop (s : Screen) : Screen :=
   { s with tabstops := fun c => c == s.cursor.x || s.tabstops c }
 
-def clearTabStop (s : Screen) (how : Option Nat) : Screen :=
-  match how.getD 0 with
-  | 0 => { s with tabstops := fun c => c != s.cursor.x && s.tabstops c }
-  | 3 => { s with tabstops := fun _ => false }
-  | _ => s
+def tbcStops (s : Screen) (h : Nat) : Nat → Bool :=
+  match h with
+  | 0 => fun c => c != s.cursor.x && s.tabstops c
+  | 3 => fun _ => false
+  | _ => s.tabstops
 
-/-- `tab`: first stop to the right of the cursor in sorted order, else the last
-    column; never beyond the last column. -/
+def clearTabStop (s : Screen) (how : Option Nat) : Screen :=
+  { s with tabstops := tbcStops s (how.getD 0) }
+
+/-- least `c` in `[start, start + fuel)` with `stops c` -/
+def firstStopFrom (stops : Nat → Bool) : Nat → Nat → Option Nat
+  | _, 0 => none
+  | start, fuel + 1 => if stops start then some start else firstStopFrom stops (start + 1) fuel
+
+/-- `tab`: the first stop to the right of the cursor in sorted order, else the last
+    column; never beyond the last column (stops at or beyond the last column give the
+    last column either way, so the scan stops there). -/
 def tab (s : Screen) : Screen :=
-  match (List.range s.columns).find? (fun c => s.cursor.x < c && s.tabstops c) with
+  match firstStopFrom s.tabstops (s.cursor.x + 1) (s.columns - (s.cursor.x + 1)) with
   | some c => setCursorX s (min c (s.columns - 1))
   | none => setCursorX s (s.columns - 1)
 
 /-! ### margins -/
 
+/-- 1-based argument to a 0-based row bounded by `[0, lines - 1]`; absent = current value -/
+def clampMargin (s : Screen) (inner : Nat) : Option Nat → Nat
+  | none => inner
+  | some v => min (v - 1) (s.lines - 1)
+
 def setMargins (s : Screen) (top bottom : Option Nat) : Screen :=
   if top.getD 0 == 0 && bottom.isNone then { s with margins := none }
   else
     let inner : Nat × Nat := s.margins.getD (0, s.lines - 1)
-    let t := match top with
-      | none => inner.1
-      | some v => min (v - 1) (s.lines - 1)
-    let b := match bottom with
-      | none => inner.2
-      | some v => min (v - 1) (s.lines - 1)
+    let t := clampMargin s inner.1 top
+    let b := clampMargin s inner.2 bottom
     if t + 1 ≤ b then cursorPosition { s with margins := some (t, b) } none none
     else s
 
@@ -228,33 +238,40 @@ def eraseCharacters (s : Screen) (count : Option Nat) : Screen :=
       if y == s.cursor.y && s.cursor.x ≤ x && x < min (s.cursor.x + n) s.columns then cursorCell s
       else s.cell y x }
 
+/-- the column interval selected by `how` in `erase_in_line` (None: unsupported selector) -/
+def elRange (s : Screen) (h : Nat) : Option (Nat → Bool) :=
+  match h with
+  | 0 => some (fun x => s.cursor.x ≤ x && x < s.columns)
+  | 1 => some (fun x => x ≤ min s.cursor.x (s.columns - 1))
+  | 2 => some (fun x => x < s.columns)
+  | _ => none
+
 /-- `erase_in_line` -/
 def eraseInLine (s : Screen) (how : Option Nat) : Screen :=
   let s1 := markDirty s s.cursor.y
-  let inRange : Option (Nat → Bool) :=
-    match how.getD 0 with
-    | 0 => some (fun x => s.cursor.x ≤ x && x < s.columns)
-    | 1 => some (fun x => x ≤ min s.cursor.x (s.columns - 1))
-    | 2 => some (fun x => x < s.columns)
-    | _ => none
-  match inRange with
+  match elRange s (how.getD 0) with
   | none => s1
   | some p =>
     { s1 with cell := fun y x => if y == s.cursor.y && p x then cursorCell s else s.cell y x }
 
+/-- the row interval `[lo, hi)` selected by `how` in `erase_in_display` -/
+def edRows (s : Screen) (h : Nat) : Nat × Nat :=
+  match h with
+  | 0 => (s.cursor.y + 1, s.lines)
+  | 1 => (0, s.cursor.y)
+  | 2 => (0, s.lines)
+  | 3 => (0, s.lines)
+  | _ => (0, 0)
+
+/-- rows `[lo, hi)` filled with the cursor's blank, marked dirty -/
+def edFill (s : Screen) (lo hi : Nat) : Screen :=
+  { markDirtyRange s lo hi with
+    cell := fun y x => if lo ≤ y && y < hi && x < s.columns then cursorCell s else s.cell y x }
+
 /-- `erase_in_display` -/
 def eraseInDisplay (s : Screen) (how : Option Nat) : Screen :=
   let h := how.getD 0
-  let lohi : Nat × Nat :=
-    match h with
-    | 0 => (s.cursor.y + 1, s.lines)
-    | 1 => (0, s.cursor.y)
-    | 2 => (0, s.lines)
-    | 3 => (0, s.lines)
-    | _ => (0, 0)
-  let s1 := markDirtyRange s lohi.1 lohi.2
-  let s2 : Screen := { s1 with cell := fun y x =>
-      if lohi.1 ≤ y && y < lohi.2 && x < s.columns then cursorCell s else s.cell y x }
+  let s2 := edFill s (edRows s h).1 (edRows s h).2
   if h == 0 || h == 1 then eraseInLine s2 (some h) else s2
 
 /-! ### SGR -/
@@ -384,22 +401,35 @@ def removeModes (s : Screen) (ml : List Nat) : Screen :=
 def setAllReverse (s : Screen) (v : Bool) : Screen :=
   { s with cell := fun y x => { s.cell y x with attr := { (s.cell y x).attr with reverse := v } } }
 
+/-- First half of `set_mode`: the mode set is extended and, if DECSCNM is among the
+    new modes, every row is marked dirty, every cell and the current rendition get
+    reverse video.  (In the Rust source the reverse-video block comes after the DECCOLM
+    and DECOM blocks; the blocks act on disjoint state or are idempotent with respect to
+    each other, so the order is not observable - DESIGN.md section 3 - and the
+    correspondence runs exercise lists containing several of these modes.) -/
+def applySetModes (s : Screen) (ml : List Nat) : Screen :=
+  if ml.contains DECSCNM then
+    selectGraphicRendition (setAllReverse (addModes (markAllDirty s) ml) true) [7]
+  else addModes s ml
+
+def applyResetModes (s : Screen) (ml : List Nat) : Screen :=
+  if ml.contains DECSCNM then
+    selectGraphicRendition (setAllReverse (removeModes (markAllDirty s) ml) false) [27]
+  else removeModes s ml
+
+def homeIf (b : Bool) (s : Screen) : Screen := if b then cursorPosition s none none else s
+
+def hiddenIf (b : Bool) (v : Bool) (s : Screen) : Screen :=
+  if b then { s with cursor := { s.cursor with hidden := v } } else s
+
 /-- `restore_cursor` needs `set_mode(&[DECOM])` / `set_mode(&[DECAWM])`, which
-    never reach the DECCOLM branch unless the constants collide; this is the
-    part of `set_mode` without that branch, applied to an explicit list. -/
+    never reach the DECCOLM branch unless the constants collide; this is
+    `set_mode` without that branch, applied to an explicit list. -/
 def setModeNoColm (s : Screen) (ml : List Nat) : Screen :=
-  let s := if ml.contains DECSCNM then markAllDirty s else s
-  let s := addModes s ml
-  let s := if ml.contains DECOM then cursorPosition s none none else s
-  let s := if ml.contains DECSCNM then selectGraphicRendition (setAllReverse s true) [7] else s
-  if ml.contains DECTCEM then { s with cursor := { s.cursor with hidden := false } } else s
+  hiddenIf (ml.contains DECTCEM) false (homeIf (ml.contains DECOM) (applySetModes s ml))
 
 def resetModeNoColm (s : Screen) (ml : List Nat) : Screen :=
-  let s := if ml.contains DECSCNM then markAllDirty s else s
-  let s := removeModes s ml
-  let s := if ml.contains DECOM then cursorPosition s none none else s
-  let s := if ml.contains DECSCNM then selectGraphicRendition (setAllReverse s false) [27] else s
-  if ml.contains DECTCEM then { s with cursor := { s.cursor with hidden := true } } else s
+  hiddenIf (ml.contains DECTCEM) true (homeIf (ml.contains DECOM) (applyResetModes s ml))
 
 /-- `restore_cursor` -/
 def restoreCursor (s : Screen) : Screen :=
@@ -411,6 +441,15 @@ def restoreCursor (s : Screen) : Screen :=
     ensureVBounds (ensureHBounds { s with cursor := sp.cursor }) true
   | [] => cursorPosition (resetModeNoColm s [DECOM]) none none
 
+/-- the `save_cursor; cursor_position(0, 0); delete_lines(lines - l); restore_cursor`
+    block of `resize` -/
+def dropRowsFromTop (s1 : Screen) (l : Nat) : Screen :=
+  restoreCursor (deleteLines (cursorPosition (saveCursor s1) (some 0) (some 0)) (some (s1.lines - l)))
+
+/-- the column-cutting loop of `resize` -/
+def cutColumns (s2 : Screen) (c : Nat) : Screen :=
+  { s2 with cell := fun y x => if c ≤ x && x < s2.columns then defaultCell s2 else s2.cell y x }
+
 /-- `resize(lines, columns)` -/
 def resize (s : Screen) (lines columns : Option Nat) : Screen :=
   let l := lines.getD s.lines
@@ -418,52 +457,41 @@ def resize (s : Screen) (lines columns : Option Nat) : Screen :=
   if l == s.lines && c == s.columns then s
   else
     let s1 : Screen := { s with margins := none }
-    let s2 :=
-      if l < s1.lines then
-        restoreCursor (deleteLines (cursorPosition (saveCursor s1) (some 0) (some 0)) (some (s1.lines - l)))
-      else s1
-    let s3 : Screen :=
-      if c < s2.columns then
-        { s2 with cell := fun y x => if c ≤ x && x < s2.columns then defaultCell s2 else s2.cell y x }
-      else s2
+    let s2 := if l < s1.lines then dropRowsFromTop s1 l else s1
+    let s3 : Screen := if c < s2.columns then cutColumns s2 c else s2
     let s4 : Screen := { s3 with lines := l, columns := c, dirty := fun d => d < l }
     ensureVBounds (ensureHBounds (setMargins s4 none none)) false
 
 def shiftModes (modes : List Nat) (priv : Bool) : List Nat :=
   if priv then modes.map (· * 32) else modes
 
+/-- the DECCOLM block of `set_mode` -/
+def colmSet (s : Screen) : Screen :=
+  cursorPosition (eraseInDisplay (resize { s with savedColumns := some s.columns } none (some 132)) (some 2)) none none
+
+/-- the DECCOLM block of `reset_mode` -/
+def colmReset (s : Screen) : Screen :=
+  let s1 :=
+    if s.columns == 132 then
+      match s.savedColumns with
+      | some sc => { resize s none (some sc) with savedColumns := none }
+      | none => s
+    else s
+  cursorPosition (eraseInDisplay s1 (some 2)) none none
+
 /-- `set_mode` -/
 def setMode (s : Screen) (modes : List Nat) (priv : Bool) : Screen :=
   let ml := shiftModes modes priv
-  let s := if ml.contains DECSCNM then markAllDirty s else s
-  let s := addModes s ml
-  let s :=
-    if ml.contains DECCOLM then
-      let s := { s with savedColumns := some s.columns }
-      cursorPosition (eraseInDisplay (resize s none (some 132)) (some 2)) none none
-    else s
-  let s := if ml.contains DECOM then cursorPosition s none none else s
-  let s := if ml.contains DECSCNM then selectGraphicRendition (setAllReverse s true) [7] else s
-  if ml.contains DECTCEM then { s with cursor := { s.cursor with hidden := false } } else s
+  let s1 := applySetModes s ml
+  let s2 := if ml.contains DECCOLM then colmSet s1 else s1
+  hiddenIf (ml.contains DECTCEM) false (homeIf (ml.contains DECOM) s2)
 
 /-- `reset_mode` -/
 def resetMode (s : Screen) (modes : List Nat) (priv : Bool) : Screen :=
   let ml := shiftModes modes priv
-  let s := if ml.contains DECSCNM then markAllDirty s else s
-  let s := removeModes s ml
-  let s :=
-    if ml.contains DECCOLM then
-      let s :=
-        if s.columns == 132 then
-          match s.savedColumns with
-          | some sc => { resize s none (some sc) with savedColumns := none }
-          | none => s
-        else s
-      cursorPosition (eraseInDisplay s (some 2)) none none
-    else s
-  let s := if ml.contains DECOM then cursorPosition s none none else s
-  let s := if ml.contains DECSCNM then selectGraphicRendition (setAllReverse s false) [27] else s
-  if ml.contains DECTCEM then { s with cursor := { s.cursor with hidden := true } } else s
+  let s1 := applyResetModes s ml
+  let s2 := if ml.contains DECCOLM then colmReset s1 else s1
+  hiddenIf (ml.contains DECTCEM) true (homeIf (ml.contains DECOM) s2)
 
 /-! ### reset, alignment display, titles -/
 
